@@ -83,6 +83,9 @@ def run(res):
     # registration racing Close, a second listener's Close leaves the first reachable (harness/cmd/stream)
     from .. import stream
     res.coverage["transport_close_scenarios"] = stream.run(res, "C10")
+    # the handshaker as a state machine: random Start / completion / Wait / Close histories against Model/Handshaker.v
+    from .. import hsm
+    res.coverage["handshaker_state_machine"] = hsm.run(res, "C10")
     for k in ("discharged", "theorems", "generated_obligations", "register_after_check_rules"):
         if k in cov0:
             res.coverage[k] = cov0[k]
